@@ -259,13 +259,19 @@ def check_case(p, ctx):
     # ---- (4b) the numeric type of the coordinates does not matter: pixel coordinates given as Python ints and the same
     # values given as floats yield the same equations
     if p["tseed"] % 3 == 0:
-        hmin = min(t.length(ri) / (nint[ri] + 1) for ri in range(len(t.ridges)))
+        hmin = math.inf
+        for ri, r in enumerate(t.ridges):
+            chain = [t.J[r.a]] + t.points(ri, nint[ri]) + [t.J[r.b]]      # actual (possibly non-uniform) sampling
+            hmin = min(hmin, min(abs(chain[k + 1] - chain[k]) for k in range(len(chain) - 1)))
         t_px = t.similarity(scale=6.0 / hmin)
         rhs_by_type = []
         for as_int in (False, True):
             Rq = realise(t_px, nint, lab)
             for v in Rq.vertices.values():
                 v.x, v.y = (int(round(v.x)), int(round(v.y))) if as_int else (float(round(v.x)), float(round(v.y)))
+            if len({(v.x, v.y) for v in Rq.vertices.values()}) != len(Rq.vertices):
+                rhs_by_type = None          # two vertices fell on one pixel: not a valid mesh any more
+                break
             fq = make_frame(Rq)
             for be in fq.internal_big_edges:
                 rs = infer.ridge_of_path(Rq, be.get_vertices_ids())
@@ -274,12 +280,15 @@ def check_case(p, ctx):
             fsq = call(fs.ForSys, {0: fq})
             call(fsq.build_pressure_matrix, when=0)
             rhs_by_type.append(np.asarray(fsq.pressure_matrices[0].rhs_matrix, float))
-        if rhs_by_type[0].shape != rhs_by_type[1].shape or \
+        if rhs_by_type is None:
+            ctx.count("integer-typed-coordinates:vertices-coincide-after-rounding(skipped)")
+        elif rhs_by_type[0].shape != rhs_by_type[1].shape or \
                 np.max(np.abs(rhs_by_type[0] - rhs_by_type[1])) > 1e-9 * max(np.max(np.abs(rhs_by_type[0])), 1e-300):
             k = int(np.argmax(np.abs(rhs_by_type[0] - rhs_by_type[1])))
             return ctx.violation("integer-typed-coordinates-change-the-equations", p, observed=float(rhs_by_type[1][k]),
                                  expected=float(rhs_by_type[0][k]), detail={"row": k})
-        ctx.count("integer-typed-coordinates-compared")
+        else:
+            ctx.count("integer-typed-coordinates-compared")
     # ---- (5) physics
     if connected and p["tension_mode"] == "analytic":
         cells_i = [R.cell_of_cid[order[k]] for k in idx]
